@@ -32,6 +32,10 @@ pub fn bad_texts(rng: &mut Rng, t: Sty) -> Vec<(&'static str, String)> {
     let mut v = bad_texts_short(rng, t);
     if !matches!(t, Sty::Str) {
         v.extend(long_bad(rng));
+        let vocab = vocab_texts();
+        for _ in 0..3 {
+            v.push(("message-vocabulary", vocab[rng.below(vocab.len())].1.clone()));
+        }
     }
     v
 }
@@ -1073,6 +1077,205 @@ pub fn multi_fault_stream(rng: &mut Rng, rounds: usize) -> Vec<Case> {
     out
 }
 
+// ------------------------------ ill-typed values made of the framework's own words
+
+/// the vocabulary of serde's / dropshot's own error messages, each alone, as a
+/// prefix, as a suffix and in the middle of an otherwise meaningless text:
+/// none of them is a value of any non-String type, and every error message
+/// that echoes the client's text will contain it
+pub fn vocab_texts() -> Vec<(String, String)> {
+    let words = [
+        "missing field",
+        "missing field: x",
+        "missing field `x`",
+        "duplicate field `x`",
+        "unknown variant",
+        "invalid type",
+        "unable to parse",
+        "expected",
+    ];
+    let mut v = vec![];
+    for w in words {
+        v.push(("alone".to_string(), w.to_string()));
+        v.push(("prefix".to_string(), format!("{} y", w)));
+        v.push(("suffix".to_string(), format!("x-{}", w)));
+        v.push(("middle".to_string(), format!("x-{}-y", w)));
+    }
+    v
+}
+
+const VOCAB_PATH_SHAPES: usize = 14;
+
+/// the text as the value of a typed path variable
+fn vocab_path_case(rng: &mut Rng, shape: usize, place: &str, text: &str) -> Case {
+    let raw = enc_segment(rng, text.as_bytes());
+    let mut t2 = vec![];
+    let mut tags = vec!["bad:message-vocabulary".to_string(), format!("vocab:{}", place)];
+    let singles: [(&str, Sty); 7] = [
+        ("u8", Sty::Int { signed: false, bits: 8 }),
+        ("i64", Sty::Int { signed: true, bits: 64 }),
+        ("u128", Sty::Int { signed: false, bits: 128 }),
+        ("bool", Sty::Bool),
+        ("char", Sty::Char),
+        ("enum", Sty::Enum),
+        ("uuid", Sty::Uuid),
+    ];
+    let th = Sty::Int { signed: false, bits: 16 };
+    match shape % VOCAB_PATH_SHAPES {
+        k if k < 7 => {
+            let (name, t) = singles[k];
+            tags.push(format!("pos:path-{}", name));
+            let sp: Spec = vec![("v".into(), Kind::Scalar(t, Pres::Req))];
+            let mut target = format!("/p/{}/", name).into_bytes();
+            target.extend_from_slice(&raw);
+            let coq_in = format!("{} {} None", g_spec(&sp), g_ws1(&[("v", raw)]));
+            base("CPath", "path", &format!("p_{}", name), "GET", target, coq_in, tags)
+        }
+        7 | 8 => {
+            // the multi-variable path: the integer or the enum variable
+            let tb = Sty::Int { signed: true, bits: 64 };
+            let bad_b = shape % VOCAB_PATH_SHAPES == 7;
+            tags.push(format!("pos:path-multi-{}", if bad_b { "b-b" } else { "c" }));
+            let ra = good_segment(rng, Sty::Str, &mut t2);
+            let rb = if bad_b { raw.clone() } else { good_segment(rng, tb, &mut t2) };
+            let rc = if bad_b { good_segment(rng, Sty::Enum, &mut t2) } else { raw.clone() };
+            let sp: Spec = vec![
+                ("a".into(), Kind::Scalar(Sty::Str, Pres::Req)),
+                ("b-b".into(), Kind::Scalar(tb, Pres::Req)),
+                ("c".into(), Kind::Scalar(Sty::Enum, Pres::Req)),
+            ];
+            let mut target = b"/pm/".to_vec();
+            target.extend_from_slice(&ra);
+            target.extend_from_slice(b"/lit/");
+            target.extend_from_slice(&rb);
+            target.push(b'/');
+            target.extend_from_slice(&rc);
+            let coq_in = format!("{} {} None", g_spec(&sp), g_ws1(&[("a", ra), ("b-b", rb), ("c", rc)]));
+            base("CPath", "path", "pm", "GET", target, coq_in, tags)
+        }
+        9 => {
+            tags.push("pos:path-wild-head".into());
+            let r1 = good_segment(rng, Sty::Str, &mut t2);
+            let sp: Spec = vec![("h".into(), Kind::Scalar(th, Pres::Req)), ("rest".into(), Kind::Seq(Sty::Str))];
+            let mut target = b"/pw/".to_vec();
+            target.extend_from_slice(&raw);
+            target.push(b'/');
+            target.extend_from_slice(&r1);
+            let coq_in = format!(
+                "{} [({}, WOne {}); ({}, WMany [{}])] None",
+                g_spec(&sp),
+                g_str("h"),
+                g_bytes(&raw),
+                g_str("rest"),
+                g_bytes(&r1)
+            );
+            base("CPath", "path", "pw", "GET", target, coq_in, tags)
+        }
+        10 => {
+            tags.push("pos:path-option".into());
+            let t = Sty::Int { signed: false, bits: 32 };
+            let sp: Spec = vec![("v".into(), Kind::Scalar(t, Pres::Opt))];
+            let mut target = b"/po/".to_vec();
+            target.extend_from_slice(&raw);
+            let coq_in = format!("{} {} None", g_spec(&sp), g_ws1(&[("v", raw)]));
+            base("CPath", "path", "po", "GET", target, coq_in, tags)
+        }
+        k => {
+            // an element of a typed wildcard, between two valid ones
+            let (ep, lit, t) = [("pwt_enum", "colors", Sty::Enum), ("pwt_uuid", "ids", Sty::Uuid), ("pwt_enum", "colors", Sty::Enum)][k - 11];
+            tags.push(format!("pos:path-wild-typed-middle-{}", ep));
+            let r0 = good_segment(rng, t, &mut t2);
+            let r2 = good_segment(rng, t, &mut t2);
+            let raws = vec![r0, raw, r2];
+            let sp: Spec = vec![("rest".into(), Kind::Seq(t))];
+            let mut target = format!("/{}", lit).into_bytes();
+            for r in &raws {
+                target.push(b'/');
+                target.extend_from_slice(r);
+            }
+            let coq_in =
+                format!("{} [({}, WMany {})] None", g_spec(&sp), g_str("rest"), g_list(&raws, |r| g_bytes(r)));
+            base("CPath", "path", ep, "GET", target, coq_in, tags)
+        }
+    }
+}
+
+/// the text as a query value, a JSON string member, a form member
+fn vocab_other_case(rng: &mut Rng, shape: usize, place: &str, text: &str) -> Case {
+    let mut t2 = vec![];
+    let mut tags = vec!["bad:message-vocabulary".to_string(), format!("vocab:{}", place)];
+    match shape % 6 {
+        k if k < 3 => {
+            let (name, t) =
+                [("u32", Sty::Int { signed: false, bits: 32 }), ("enum", Sty::Enum), ("uuid", Sty::Uuid)][k];
+            let field = ["v", "o", "d"][(shape / 6) % 3];
+            tags.push(format!("pos:query-{}-{}", name, field));
+            let mut kvs: Vec<(String, String)> = vec![];
+            if field != "v" {
+                kvs.push(("v".into(), good_text(rng, t, &mut t2)));
+            }
+            kvs.push((field.into(), text.to_string()));
+            rng.shuffle(&mut kvs);
+            let qs = enc_pairs(rng, &kvs, true, &mut t2);
+            q_case(&format!("q/{}", name), &format!("q_{}", name), &q3_spec(t), Some(qs), tags)
+        }
+        3 | 4 => {
+            // JSON string members whose type is not String: the enum, the char
+            let key = if shape % 6 == 3 { "e" } else { "c" };
+            tags.push(format!("pos:json-{}", key));
+            let (_, mut m) = good_bj(rng);
+            m.retain(|(n, _)| n != key);
+            let quoted = json_string(rng, text, &mut t2);
+            m.push((key.to_string(), quoted));
+            let body = compact(&m);
+            let framing = gen_framing(rng, body.len(), &mut t2);
+            let ct = Some(b"application/json".to_vec());
+            let coq_in = json_coq(&ct, &body, &framing);
+            body_case("CJson", "json", "bj", "PUT", "/b/json", ct, body, framing, coq_in, tags)
+        }
+        _ => {
+            let field = ["n", "e", "b"][(shape / 6) % 3];
+            tags.push(format!("pos:form-{}", field));
+            let v = gen_body_vals(rng, &mut t2);
+            let mut kvs: Vec<(String, String)> = vec![
+                ("s".to_string(), gen_text(rng, &v.s, &mut t2)),
+                ("n".to_string(), gen_text(rng, &v.n, &mut t2)),
+                ("big".to_string(), gen_text(rng, &v.big, &mut t2)),
+                ("b".to_string(), gen_text(rng, &v.b, &mut t2)),
+                ("c".to_string(), gen_text(rng, &v.c, &mut t2)),
+                ("e".to_string(), gen_text(rng, &v.e, &mut t2)),
+            ];
+            kvs.retain(|(n, _)| n != field);
+            kvs.push((field.into(), text.to_string()));
+            rng.shuffle(&mut kvs);
+            let body = enc_pairs(rng, &kvs, false, &mut t2);
+            let ct = Some(b"application/x-www-form-urlencoded".to_vec());
+            let framing = gen_framing(rng, body.len(), &mut t2);
+            let coq_in = format!(
+                "{} {} {} {} None",
+                g_spec(&bf_spec()),
+                g_hdr(&ct),
+                CAP,
+                g_list(&frames_of(&body, &framing), |f| g_bytes(f))
+            );
+            body_case("CForm", "form", "bf", "PUT", "/b/form", ct, body, framing, coq_in, tags)
+        }
+    }
+}
+
+/// every vocabulary text once in a path position and once elsewhere; the
+/// positions rotate (with an offset per round) so that each shape meets many texts
+pub fn vocab_stream(rng: &mut Rng, rounds: usize) -> Vec<Case> {
+    let mut out = vec![];
+    for round in 0..rounds {
+        for (i, (place, text)) in vocab_texts().iter().enumerate() {
+            out.push(vocab_path_case(rng, i + 5 * round, place, text));
+            out.push(vocab_other_case(rng, i + 7 * round, place, text));
+        }
+    }
+    out
+}
+
 pub fn gen_all(server: &Server, seed: u64, thorough: bool, out: &mut dyn Write) {
     let mut rng = Rng::new(seed ^ 0xC10);
     let mul = if thorough { 6 } else { 1 };
@@ -1116,6 +1319,7 @@ pub fn gen_all(server: &Server, seed: u64, thorough: bool, out: &mut dyn Write) 
         cases.push(all_bad(&mut rng, i));
     }
     cases.extend(multi_fault_stream(&mut rng, if thorough { 8 } else { 2 }));
+    cases.extend(vocab_stream(&mut rng, if thorough { 6 } else { 1 }));
     for c in &cases {
         let (obs, port) = run_serial(server, c);
         emit(out, &line_of(c, &obs, port));
